@@ -224,6 +224,8 @@ fn spec(ctx: &Ctx, shards: usize, fn_weight: i64) -> SeqSpec {
         Op::Delete { k: 1 },
         // a TTL change that keeps the expiry in its shard (2 s -> 2.5 s) / moves it: the sweep must still find the key
         Op::Upsert { k: 1, value: true, w: None, ttl_ms: Some(2500), remove_ttl: false },
+        // a TTL change that shortens (1.5 s / 2 s -> 0.5 s, into the other shard): the sweep of the new expiry must find the key
+        Op::Upsert { k: 1, value: true, w: None, ttl_ms: Some(500), remove_ttl: false },
         // heavy enough to need key 1's space (W = 5)
         Op::Put { k: 2, w: Some(4), ttl_ms: None },
         Op::Delete { k: 2 },
@@ -258,8 +260,39 @@ fn spec(ctx: &Ctx, shards: usize, fn_weight: i64) -> SeqSpec {
     }
 }
 
+/// A second life for keys of a large generation that expired together: the history starts after `n` puts with the same
+/// time-to-live (all due at one visit of one expiry shard); after the sweep every one of them takes a put again.
+fn many_keys_spec(ctx: &Ctx, n: u64) -> SeqSpec {
+    let quick = ctx.quick();
+    let prefix: Vec<Op> = (1..=n).map(|k| Op::Put { k, w: Some(1), ttl_ms: Some(1000) }).collect();
+    SeqSpec {
+        name: format!("seq/put-after-a-large-generation-expired/n={}", n),
+        setup: Setup { weight: 1000, shards: 2, buffer: 64, weight_fn: WeightFn::Const { c: 2, ttl_extra: 0 }, ..Setup::default() },
+        world: Default::default(),
+        prefix,
+        alphabet: vec![
+            Op::Advance { ms: 1000 },
+            Op::Advance { ms: 2000 },
+            Op::TickWait,
+            Op::ProbedPut { k: 1, w: Some(1), ttl_ms: None },
+            Op::ProbedPut { k: n, w: Some(1), ttl_ms: Some(1000) },
+            Op::ProbedPut { k: n / 2, w: None, ttl_ms: None },
+            Op::ReadAll { keys: vec![1, n] },
+        ],
+        depth: if quick { 5 } else { 7 },
+        allow: None,
+        oracle: oracle(),
+        keys: (1..=n).collect(),
+        canon_sketch: false,
+        ghost_key: Some(passed_over_key(vec![1, n / 2, n])),
+        max_states: 2_000_000,
+        time_cap_s: if quick { 10.0 } else { 600.0 },
+    }
+}
+
 pub fn def(ctx: &Ctx) -> PropertyDef {
     let mut scenarios: Vec<Scenario> = Vec::new();
+    scenarios.push(seq_scenario(|c| many_keys_spec(c, 70), "seq/put-after-a-large-generation-expired/n=70"));
     for (shards, fn_weight) in [(2usize, 2i64), (4, 2), (2, 9)] {
         let name = spec(ctx, shards, fn_weight).name;
         scenarios.push(seq_scenario(move |c| spec(c, shards, fn_weight), &name));
